@@ -10,6 +10,7 @@ package main
 import (
 	"bytes"
 	"fmt"
+	"os"
 	"sort"
 
 	"com.tuntun.rangers/node/src/common"
@@ -55,6 +56,7 @@ func (r *runner) scenarioBlob(idx int) {
 			}
 		}
 		sort.Slice(hsx, func(i, j int) bool { return bytes.Compare(hsx[i][:], hsx[j][:]) < 0 })
+		descs := map[common.Hash]*nodeDesc{}
 		for _, h := range hsx {
 			blob, _ := ndb.Node(h)
 			k := kStorage
@@ -65,6 +67,10 @@ func (r *runner) scenarioBlob(idx int) {
 			if d.bad {
 				d = describe(h, kCode, blob)
 			}
+			descs[h] = d
+		}
+		for _, h := range topoOrder(hsx, func(h common.Hash) []common.Hash { return descs[h].need }) {
+			d := descs[h]
 			inModel[h] = true
 			r.out.Emit(fmt.Sprintf("ins %s %s %d %d %s %s", hs(h), d.kind, d.size, d.tag, hlist(d.inner), hlist(d.need)), "ok")
 		}
@@ -180,6 +186,7 @@ func (r *runner) scenarioBlob(idx int) {
 				fail = rg.Intn(3)
 			}
 			rec.log = nil
+			rec.refused = nil
 			rec.failAt = fail
 			err := ndb.Commit(root, false)
 			rec.failAt = -1
@@ -189,11 +196,25 @@ func (r *runner) scenarioBlob(idx int) {
 			if len(ws) > 1 {
 				r.stats["blob_multi_batch"]++
 			}
+			if os.Getenv("VERIF_DEBUG") != "" {
+				fmt.Fprintf(os.Stderr, "DEBUG commit %s err=%v nodes after=%d\n", hs(root), err, len(ndb.Nodes()))
+				for _, h := range ndb.Nodes() {
+					fmt.Fprintf(os.Stderr, "   cached %s\n", hs(h))
+				}
+			}
+			{ // what the commit uncached is unknown to the model from now on
+				c := cachedSet()
+				for h := range inModel {
+					if !c[h] {
+						delete(inModel, h)
+					}
+				}
+			}
 			if err == nil {
 				r.out.Emit(fmt.Sprintf("commit %s %s", hs(root), traceString(ws)), "ok "+traceString(ws))
 				r.step(fmt.Sprintf("Commit %x ok %d batches", root[:4], len(ws)))
 			} else {
-				r.out.Emit(fmt.Sprintf("fail %s %d %s", hs(root), fail, traceString(ws)), "err "+traceString(ws))
+				r.out.Emit(fmt.Sprintf("fail %s %d %s %s", hs(root), fail, traceString(ws), batchString(rec.refused)), "err "+traceString(ws))
 				r.step(fmt.Sprintf("Commit %x failed after %d batches", root[:4], len(ws)))
 				if rg.Bool() {
 					ndb = trie.NewDatabase(rec)
